@@ -6,7 +6,7 @@
    exceptional exit satisfies E.  `unchanged h h'` = every cell of every block, the set of live blocks, their
    sizes and all data-member registers are exactly as before (strong guarantee incl. "nothing leaked"). *)
 From Coq Require Import List Arith Lia Bool.
-From C04 Require Import Effects ObjMgr ArrayData Ctor KeyValue Tree Relocator.
+From C04 Require Import Effects ObjMgr ArrayData Ctor KeyValue Tree Relocator Replace.
 Import ListNotations.
 
 (* ObjectManager::RelocateExec (both overloads of pvRelocateExec, ObjectManager.h:508-535), for every element
@@ -274,3 +274,38 @@ Theorem relocator_commit_or_rollback :
        (fun s' => rolled_back (hp s) (hp s')).
 Proof. exact relocator_spec. Qed.
 Print Assumptions relocator_commit_or_rollback.
+
+(* MapKeyValueTraits::Replace (pvReplace, MapUtility.h:355-377) -- used by Remove of the hash maps: all-or-nothing whenever the
+   key or the value is nothrow anyway-assignable.  The hypothesis is the documented exception (HashMap.h:351-355 item 5). *)
+Theorem kv_replace_strong :
+  forall ck cv sk sv dk dv kv vv s,
+    nothrow ck = true \/ nothrow cv = true -> kvr_pre sk sv dk dv kv vv (hp s) ->
+    wp (kv_replace ck cv sk sv dk dv) s
+       (fun _ s' => heq (hset (hset (hset (hset (hp s) dk (Live kv)) dv (Live vv)) sk Raw) sv Raw) (hp s'))
+       (fun s' => heq (hp s) (hp s')).
+Proof. exact kv_replace_spec. Qed.
+Print Assumptions kv_replace_strong.
+
+(* ... and in the excepted case (pvReplaceUnsafe, MapUtility.h:379-387) exactly what the documentation says can happen does:
+   on an exception either nothing changed or only the removed value was overwritten *)
+Theorem kv_replace_unsafe_changes_only_removed_value :
+  forall ck cv sk sv dk dv kv vv s,
+    nothrow ck = false -> nothrow cv = false -> kvr_pre sk sv dk dv kv vv (hp s) ->
+    wp (kv_replace ck cv sk sv dk dv) s
+       (fun _ s' => heq (hset (hset (hset (hset (hp s) dv (Live vv)) dk (Live kv)) sk Raw) sv Raw) (hp s'))
+       (fun s' => heq (hp s) (hp s') \/ heq (hset (hp s) dv (Live vv)) (hp s')).
+Proof. exact kv_replace_unsafe_spec. Qed.
+Print Assumptions kv_replace_unsafe_changes_only_removed_value.
+
+(* MapKeyValueTraits::ReplaceRelocate (pvReplaceRelocate, MapUtility.h:389-450) -- used by Extract: same hypothesis *)
+Theorem kv_replace_relocate_strong :
+  forall ck cv sk sv mk mv dk dv kv vv kw vw s,
+    nothrow ck = true \/ nothrow cv = true -> kvrr_pre sk sv mk mv dk dv kv vv kw vw (hp s) ->
+    wp (kv_replace_relocate ck cv sk sv mk mv dk dv) s
+       (fun _ s' => mem (hp s') dk = Live kw /\ mem (hp s') dv = Live vw /\ mem (hp s') mk = Live kv /\ mem (hp s') mv = Live vv /\
+                    mem (hp s') sk = Raw /\ mem (hp s') sv = Raw /\
+                    (forall l, ~ In l [sk; sv; mk; mv; dk; dv] -> mem (hp s') l = mem (hp s) l) /\
+                    agree (fun _ => False) (hp s) (hp s') /\ same_regs (hp s) (hp s'))
+       (fun s' => heq (hp s) (hp s')).
+Proof. exact kv_replace_relocate_spec. Qed.
+Print Assumptions kv_replace_relocate_strong.
